@@ -123,6 +123,10 @@ pub struct Monitor {
     /// counters for cover goals
     pub cover: HashMap<&'static str, u64>,
     pub check_state_points: bool,
+    pub claim: Option<&'static str>,
+    pub destructs: u64,
+    pub last_destruct_epoch: Option<usize>,
+    pub max_latency: usize,
 }
 
 struct Holder(UnsafeCell<Option<Box<Monitor>>>);
@@ -182,6 +186,10 @@ impl Monitor {
             word_addr: default_word_addr,
             cover: HashMap::new(),
             check_state_points: true,
+            claim: None,
+            destructs: 0,
+            last_destruct_epoch: None,
+            max_latency: 0,
         }
     }
 
@@ -239,6 +247,10 @@ impl Monitor {
             String::new()
         };
         self.log(|| format!("VIOLATION {} {} {}", prop, kind, detail));
+        let (prop, detail) = match self.claim {
+            Some(c) if c != prop => (c, format!("{} (a {} condition)", detail, prop)),
+            _ => (prop, detail),
+        };
         self.violation = Some(Violation {
             prop,
             kind,
@@ -339,6 +351,8 @@ impl Monitor {
                 self.mix(0x13 ^ ((o as u64) << 8) ^ ((depth.min(2) as u64) << 40));
                 self.log(|| format!("destruct-begin o{} depth={}", o, depth));
                 self.destruct_started(o, depth, true);
+                self.destructs += 1;
+                self.last_destruct_epoch = self.global_epoch;
                 if t < sched::MAX_THREADS {
                     self.tm[t].destructing = Some(o);
                 }
